@@ -429,6 +429,9 @@ def extract_type(relpath, name, opts):
             if not dropped:
                 strip_fields(v["fields"])
     text, segs = ed.render()
+    if not text.lstrip().startswith("pub"):
+        text = "pub " + text.lstrip()
+        ed.log.append({"file": relpath, "line": _srcline(src, s0), "rule": "R11", "note": f"private type {it['name']} made pub (visibility only)"})
     extra = []
     nm = it["name"]
     if opts.get("clone", True):
@@ -461,13 +464,14 @@ def extract_const(relpath, name, opts):
         ed.add(a["span"][0], a["span"][1], "", None)
     if opts.get("storage"):
         # R5: Item::new("ns") / Map::new("ns") -> struct literal with namespace id derived from the literal
-        m = re.search(r'(Item|Map|SnapshotMap)\s*::\s*new\s*\(\s*("[^"]*")', it["expr_text"])
+        m = re.search(r'(Item|Map|SnapshotMap|Admin|Hooks)\s*::\s*new\s*\(\s*("[^"]*")', it["expr_text"])
         if not m:
             raise Inconclusive(f"R5: {name} is not Item::new/Map::new")
         ns = m.group(2)
         nsid = int(hashlib.sha256(ns.encode()).hexdigest()[:12], 16)
         xs, xe = it["expr"]
-        ed.add(xs, xe, f"{m.group(1)} {{ ns: {nsid}, _p: core::marker::PhantomData }} /* ns={ns} */", "R5",
+        phantom = "" if m.group(1) in ("Admin", "Hooks") else ", _p: core::marker::PhantomData"
+        ed.add(xs, xe, f"{m.group(1)} {{ ns: {nsid}{phantom} }} /* ns={ns} */", "R5",
                f"{name} namespace {ns} -> id {nsid}")
     if it["ty"].replace(" ", "") == "&str":
         ts, te = it["ty_span"]
